@@ -180,6 +180,22 @@ def r20_6(ctx) -> None:
                     bad += 1
                     ctx.fail("R20.6", m, c, "a subscript store into a container held by the handle: retention may grow with the stream",
                              line=c.lineno)
+            # ... nor builds a chain: an object made once per item / group is not handed an earlier object of its own class
+            # (``_Grouper(key, state, previous_group)``: every group keeps its predecessor - and that one's key - alive)
+            mcfg = cfg_of(m)
+            for n in mcfg.nodes:
+                if n.kind != "call" or n.tag:
+                    continue
+                r_ = ctx.pkg.resolve_expr_global(m.module, n.ast.func)
+                made = ctx.pkg.lib_class(r_.qual) if r_.kind == "lib" else None
+                if made is None:
+                    continue
+                for a in list(n.ast.args) + [k.value for k in n.ast.keywords]:
+                    a = a.value if isinstance(a, ast.Starred) else a
+                    if any(x[0] == "libinst" and x[1] == made.fq for x in ctx.vals.expr(m, a, n)):
+                        bad += 1
+                        ctx.fail("R20.6", m, n.ast, f"`{norm(n.ast)[:80]}` hands the new {made.name} an earlier {made.name}: the objects made "
+                                 f"by {mname} form a chain that keeps every one of them (and what it refers to) alive", node=n)
             if not bad:
                 ctx.count("handle_methods")
     ctx.ok("R20.6", "itertools", "no handle method grows a container attribute")
@@ -533,6 +549,14 @@ def r20_2(ctx) -> None:
         ok = isinstance(v, ast.Call) and isinstance(v.func, ast.Attribute) and norm(v.func.value) == P["buffer"] \
             and v.func.attr in ("popleft", "pop")
         ctx.check(ok, "R20.2", u, y, "an item leaves the child's buffer when the child yields it (removing read)", node=y)
+    # a finished child's buffer stops receiving because the broadcast runs over the *live* shared list each time: what is
+    # appended to must be found by iterating that list at the moment of the broadcast (not callables / a copy taken earlier)
+    vu = ctx.inlined(u)
+    vcfg = cfg_of(vu)
+    main = [n for n in vcfg.nodes if not n.tag]
+    loops = c09._broadcast_loops(vcfg, main, P, None)
+    ctx.check(bool(loops), "R20.2", u, "tee_peer", "a fetched item is appended to the buffers found in the shared list at that moment "
+              "(a list of buffers / bound appends taken when the child started keeps feeding children that are done)")
     before = len(ctx.findings)
     c04.r04_5(_Relabel(ctx, "R20.2"))
     if len(ctx.findings) == before:
@@ -668,6 +692,9 @@ def r20_3(ctx) -> None:
         for n in cfg.nodes:
             if n.kind == "call" and not n.tag and any(n.in_region("loop", a) for a in loop_asts):
                 name = norm(n.ast.func).split(".")[-1]  # type: ignore[union-attr]
+                r_ = ctx.pkg.resolve_expr_global(u.module, n.ast.func)  # (``from heapq import heapreplace as _heapreplace``)
+                if r_.kind == "stdlib" and r_.qual.startswith("heapq."):
+                    name = r_.qual.split(".")[-1]
                 if name in HEAP_GROW | HEAP_KEEP:
                     ops.append((n, name))
         grows = [n for n, name in ops if name in HEAP_GROW]
